@@ -1194,46 +1194,181 @@ def oracle_barrier(c, obs):
     return out
 
 
-ROBS = "Z * list (rop * robs)"
+# --------------------------------------------------------------------------- components without a Coq model: oracle only
+def gen_preempt(rng):
+    cap = rng.randint(1, 4)
+    ops, nid = [], 0
+    for _ in range(rng.randint(1, 24)):
+        if rng.random() < 0.6 or nid == 0:
+            ops.append(["acq", rng.randint(1, cap), rng.randint(0, 4), rng.random() < 0.6])
+            nid += 1
+        else:
+            ops.append(["rel", rng.randrange(nid)])
+    return dict(kind="preemptible", cap=cap, ops=ops)
 
-FAMILIES = [
-    Family("resource", IMPORTS, "ok_resource", ROBS, gen_resource, impl_resource, encode_resource,
-           oracle_resource, lambda c, o: any(s["code"] == 4 and s["resolved"] for s in o), attribute_resource,
-           describe=lambda c: f"cap={c['cap']},ops={len(c['ops']) // 10 * 10}+"),
-    Family("limiter", IMPORTS, "ok_concurrency", "ckind * Z * Z * option Z * list (cop * (Z * Z * Z * Z))", gen_limiter,
-           impl_limiter, encode_limiter, oracle_limiter, lambda c, o: any(x[0] == 0 for x in o),
-           describe=lambda c: f"{c['kind']},limit={c['limit']}"),
-    Family("resource_sim", IMPORTS, "ok_resource", ROBS, gen_sync("resource"), impl_sync, encode_sync,
-           oracle_sync, nontrivial_sync, attribute_sync, parallel=True,
-           describe=lambda c: f"cap={c['cap']},workers={len(c['workers'])}"),
-    Family("mutex_sim", IMPORTS, "ok_mutex", "list (mop * sobs)", gen_sync("mutex"), impl_sync, encode_sync,
-           oracle_sync, nontrivial_sync, attribute_sync, parallel=True,
-           describe=lambda c: f"workers={len(c['workers'])}"),
-    Family("semaphore_sim", IMPORTS, "ok_semaphore", "Z * list (sop * sobs)", gen_sync("semaphore"), impl_sync, encode_sync,
-           oracle_sync, nontrivial_sync, attribute_sync, parallel=True,
-           describe=lambda c: f"cap={c['cap']},workers={len(c['workers'])}"),
-    Family("rwlock_sim", IMPORTS, "ok_rwlock", "option Z * list (rwop * sobs)", gen_sync("rwlock"), impl_sync, encode_sync,
-           oracle_sync, nontrivial_sync, attribute_sync, parallel=True,
-           describe=lambda c: f"max={c['cap']},workers={len(c['workers'])}"),
-    Family("barrier_sim", IMPORTS, "ok_barrier", "Z * list (brop * sobs)", gen_barrier, impl_barrier, encode_barrier,
-           oracle_barrier, lambda c, o: any(e["code"] == 0 and e["woken"] for e in o["trace"]), parallel=True,
-           describe=lambda c: f"parties={c['parties']},workers={len(c['workers'])}"),
-    Family("bulkhead_sim", IMPORTS, "ok_bulkhead", "Z * Z * option Z * list (bop * bobs)", gen_bulkhead, impl_bulkhead,
-           encode_bulkhead, oracle_bulkhead, lambda c, o: any(e["op"][0] == "resp" and e["code"] == 1 for e in o["trace"]),
-           parallel=True, describe=lambda c: f"max={c['max']},q={c['maxq']}"),
-    Family("pool_sim", IMPORTS, "ok_pool", "Z * Z * Z * list (pop * pobs)", gen_pool, impl_pool, encode_pool,
-           oracle_pool, lambda c, o: any(e["code"] == 4 for e in o["trace"]), parallel=True,
-           describe=lambda c: f"max={c['max']},workers={len(c['workers'])}"),
-]
+
+def impl_preempt(c):
+    from happysimulator.components.industrial.preemptible_resource import PreemptibleResource
+    r = PreemptibleResource("r", c["cap"])
+    futs, steps = [], []
+    for o in c["ops"]:
+        if o[0] == "acq":
+            futs.append((r.acquire(o[1], priority=float(o[2]), preempt=o[3]), o[1], o[2]))
+        else:
+            f = futs[o[1]][0]
+            if f.is_resolved:
+                f.value.release()
+        held = sum(f.value.amount for f, _, _ in futs if f.is_resolved and not f.value.released)
+        waiting = sorted((w.priority, w.insert_order, w.amount) for w in r._waiters)
+        granted = [i for i, (f, _, _) in enumerate(futs) if f.is_resolved]
+        steps.append(dict(avail=r.available, held=held, waiting=waiting, granted=granted,
+                          preempted=[i for i, (f, _, _) in enumerate(futs) if f.is_resolved and f.value.preempted]))
+    return steps
+
+
+def oracle_preempt(c, obs):
+    cap = c["cap"]
+    prev = set()
+    for k, s in enumerate(obs):
+        if not 0 <= s["avail"] <= cap or s["avail"] + s["held"] != cap:
+            return [dict(clause="held plus available equals capacity", step=k, avail=s["avail"], held=s["held"])]
+        if s["waiting"] and s["avail"] >= s["waiting"][0][2]:
+            return [dict(clause="granted as soon as capacity allows", mechanism="partial-preemption-leaves-capacity-idle", step=k,
+                         avail=s["avail"], head=s["waiting"][0])]
+        if not prev <= set(s["granted"]):
+            return [dict(clause="each acquire is granted at most once", step=k)]
+        prev = set(s["granted"])
+    return []
+
+
+def gen_threadpool(rng):
+    return dict(kind="threadpool", workers=rng.randint(1, 3),
+                tasks=[dict(at=rng.choice([0, 0, 1000, 2000, 5000]), time=rng.choice([0, 1000, 3000, 5000])) for _ in range(rng.randint(1, 8))])
+
+
+def impl_threadpool(c):
+    from happysimulator import Event, Instant, Simulation
+    from happysimulator.components.server.thread_pool import ThreadPool
+    from hsverif.util import run_bounded
+    tp = ThreadPool("tp", num_workers=c["workers"])
+    samples = []
+    orig = tp.handle_queued_event
+
+    def traced(event):
+        gen = orig(event)
+        try:
+            v = next(gen)
+            while True:
+                samples.append(tp.active_workers)
+                x = yield v
+                v = gen.send(x)
+        except StopIteration as e:
+            samples.append(tp.active_workers)
+            return e.value
+
+    tp.handle_queued_event = traced
+    sim = Simulation(entities=[tp])
+    for i, t in enumerate(c["tasks"]):
+        sim.schedule(Event(time=Instant(t["at"]), event_type="task", target=tp,
+                           context={"metadata": {"processing_time": t["time"] / 1e9, "i": i}}))
+    summary, verdict = run_bounded(sim, max_events_per_instant=600, max_events=20000, wall_s=20.0)
+    st = tp.stats
+    return dict(verdict=verdict, samples=samples, completed=st.tasks_completed, rejected=st.tasks_rejected,
+                active=tp.active_workers, queued=tp.queued_tasks)
+
+
+def oracle_threadpool(c, obs):
+    if obs["verdict"] != "ok":
+        return [dict(clause="waiting consumes no simulated activity", verdict=obs["verdict"])]
+    if any(x > c["workers"] or x < 0 for x in obs["samples"]) or obs["active"] != 0:
+        return [dict(clause="a thread pool never runs more tasks than it has workers and returns every worker", samples=obs["samples"], active=obs["active"])]
+    return []
+
+
+# --------------------------------------------------------------------------- two combined families
+def _with_kind(kind, gen):
+    def g(rng):
+        c = gen(rng)
+        c["kind"] = kind
+        return c
+    return g
+
+
+SIM_KINDS = {
+    # kind: (generator, impl, encode -> (constructor, term), oracle, attribute, nontrivial)
+    "resource": (gen_sync("resource"), impl_sync, lambda c, o: "CaseResource " + encode_sync(c, o), oracle_sync, attribute_sync, nontrivial_sync),
+    "mutex": (gen_sync("mutex"), impl_sync, lambda c, o: "CaseMutex " + encode_sync(c, o), oracle_sync, attribute_sync, nontrivial_sync),
+    "semaphore": (gen_sync("semaphore"), impl_sync, lambda c, o: "CaseSemaphore " + encode_sync(c, o), oracle_sync, attribute_sync, nontrivial_sync),
+    "rwlock": (gen_sync("rwlock"), impl_sync, lambda c, o: "CaseRWLock " + encode_sync(c, o), oracle_sync, attribute_sync, nontrivial_sync),
+    "barrier": (gen_barrier, impl_barrier, lambda c, o: "CaseBarrier " + encode_barrier(c, o), oracle_barrier, None,
+                lambda c, o: any(e["code"] == 0 and e["woken"] for e in o["trace"])),
+    "pool": (gen_pool, impl_pool, lambda c, o: "CasePool " + encode_pool(c, o), oracle_pool, None,
+             lambda c, o: any(e["code"] == 4 for e in o["trace"])),
+    "bulkhead": (gen_bulkhead, impl_bulkhead, lambda c, o: "CaseBulkhead " + encode_bulkhead(c, o), oracle_bulkhead, None,
+                 lambda c, o: any(e["op"][0] == "resp" and e["code"] == 1 for e in o["trace"])),
+    "threadpool": (gen_threadpool, impl_threadpool, lambda c, o: "CaseOracleOnly", oracle_threadpool, None,
+                   lambda c, o: len(o["samples"]) > 2),
+}
+DIRECT_KINDS = {
+    "resource_direct": (_with_kind("resource_direct", gen_resource), impl_resource, lambda c, o: "CaseResource " + encode_resource(c, o),
+                        oracle_resource, attribute_resource, lambda c, o: any(s["code"] == 4 and s["resolved"] for s in o)),
+    "limiter": (gen_limiter, impl_limiter, lambda c, o: "CaseLimiter " + encode_limiter(c, o), oracle_limiter, None,
+                lambda c, o: any(x[0] == 0 for x in o)),
+    "preemptible": (gen_preempt, impl_preempt, lambda c, o: "CaseOracleOnly", oracle_preempt, None,
+                    lambda c, o: any(s["preempted"] for s in o)),
+}
+# "limiter" cases carry their own 'kind' (fixed/dynamic/weighted) in 'lkind'
+
+
+def _combined(name, kinds, weights, parallel):
+    names = list(kinds)
+
+    def gen(rng):
+        k = rng.choices(names, weights=[weights.get(n, 1) for n in names])[0]
+        c = kinds[k][0](rng)
+        c["kind"] = k if k != "limiter" else c["kind"]
+        c["family_kind"] = k
+        return c
+
+    def kind_of(c):
+        return c.get("family_kind") or c["kind"]
+
+    def enc(c, o):
+        return "(" + kinds[kind_of(c)][2](c, o) + ")"
+
+    def attr(c, o, f):
+        a = kinds[kind_of(c)][4]
+        return a(c, o, f) if a else None
+
+    fam = Family(name, IMPORTS, "ok_case", "c09case", gen, None, enc,
+                 lambda c, o: kinds[kind_of(c)][3](c, o), lambda c, o: kinds[kind_of(c)][5](c, o), attr,
+                 parallel=parallel, describe=lambda c: kind_of(c))
+    return fam, kind_of
+
+
+def impl_sim(c):
+    return SIM_KINDS[c.get("family_kind") or c["kind"]][1](c)
+
+
+def impl_direct(c):
+    return DIRECT_KINDS[c.get("family_kind") or c["kind"]][1](c)
+
+
+_sim_family, _ = _combined("sim", SIM_KINDS, dict(threadpool=0.4, barrier=0.8), True)
+_sim_family.impl = impl_sim
+_direct_family, _ = _combined("direct", DIRECT_KINDS, dict(resource_direct=2, limiter=1.5, preemptible=1), False)
+_direct_family.impl = impl_direct
+FAMILIES = [_direct_family, _sim_family]
 
 TRUSTED = [
     "Coq 8.16.1 kernel (coqc, vm_compute for refutation witnesses and case evaluation); no native_compute",
     "axioms: none (every theorem of C09/Props.v is 'Closed under the global context')",
     "correspondence harness harness/props/c09.py (generators, observers, in-Coq comparison ok_* of C09/Model.v)",
-    "model choices: amounts and capacities are integers (Z); client/grant identities are creation indices; time is an explicit input of each operation",
+    "model choices: amounts and capacities are integers (Z); client/grant identities are creation indices; time is an explicit input of each operation (integer ns)",
+    "private attributes read by the observers: Resource/Semaphore/Mutex/RWLock/Barrier._waiters, ConnectionPool._idle_connections/_active_connections/_waiters/_next_waiter_id/_handle_idle_timeout, Bulkhead._wait_queue/_in_flight, PreemptibleResource._waiters, SimFuture._add_settle_callback",
 ]
 
-COQ_FILES = ["C09/Model.v", "C09/Resource.v", "C09/Sync.v", "C09/Limits.v", "C09/Pool.v", "C09/Bulk.v", "C09/Barrier.v", "C09/Props.v"]
+COQ_FILES = ["C09/Model.v", "C09/Resource.v", "C09/Sync.v", "C09/Limits.v", "C09/Pool.v", "C09/Bulk.v", "C09/Barrier.v", "C09/Examples.v", "C09/Props.v"]
 
 
 class _Sharded:
@@ -1262,13 +1397,19 @@ def run(ctx):
     for fam in FAMILIES:
         if only and fam.name not in only.split(","):
             continue
-        n = ctx.n(120, 2500) if fam.parallel else ctx.n(300, 6000)
+        n = ctx.n(260, 1500) if fam.parallel else ctx.n(300, 2500)
         stats.append(run_family(sctx, fam, n))
         ctx.log(f"family {fam.name}: {stats[-1]['cases']} cases, {stats[-1]['mismatches']} mismatches, {stats[-1]['oracle_failures']} oracle failures ({stats[-1]['known']} known)")
-    merge_stats(ctx, stats, "random operation schedules over small capacities/amounts; non-trivial = a release wakes at least one queued acquirer; distinct by JSON of the input")
+    merge_stats(ctx, stats, "direct: random operation schedules on the real objects; sim: worker processes / request streams inside real Simulations (1-6 workers, simultaneous arrivals, arrivals during a slow set-up, timeouts); non-trivial = a release/trip/response hands capacity to a blocked waiter (limiter: an acquire is refused; preemptible: a preemption happens); distinct by JSON of the input")
     ctx.finish_obligations()
     ctx.assumptions += [
-        "arrival order across all acquirers is refuted on the faithful Resource model (c09_resource_arrival_order_refuted), recorded as known finding C09-resource-overtake; FIFO among blocked acquirers is proved",
+        "one operation = one public method call (or one generator step / one handled event) by some client; 'every interleaving' = 'every operation list'; the engine (heap, process scheduling) is not modelled here - its effect is the order of the recorded operations, replayed from real Simulation runs",
+        "legitimate-use hypotheses of the exclusion/conservation theorems: a Mutex/RWLock/Semaphore client releases only what it holds (m_legit_run, rw_legit_run, s_legit_run); Resource conservation excludes raw _do_release calls (bounds still hold with them)",
+        "arrival order across ALL acquirers is refuted for Resource and Semaphore (c09_resource_arrival_order_refuted, c09_semaphore_arrival_order_refuted; known findings C09-resource-overtake, C09-semaphore-overtake); FIFO among blocked acquirers, no-overtaking for unit/larger amounts, and full no-overtaking for Mutex/RWLock are proved",
+        "PARTIAL: a queued ConnectionPool client notices the connection handed to it only at its next poll tick (c09_pool_grant_seen_at_next_poll_partial); DynamicConcurrency bound is relative to the limit in force (c09_limiter_dynamic_partial)",
+        "waiting-is-free is proved at the generator level (blocked acquire yields a future, the resume after the wake finishes: *_wait_is_parked) and checked on real runs (events processed == workers + one resume per yield; woken waiter resumes at the instant of the release; frozen-clock watchdog)",
+        "oracle only (exploration, no Coq model): PreemptibleResource (conservation, head waiter never fits, at-most-once), ThreadPool (active workers <= num_workers); not covered: Condition (its wait loop was repaired together with the other sync primitives), Grant.__del__ warnings, float amounts, ConnectionPool.warmup/close_all",
+        "ConnectionPool poll count before timeout is computed by the harness with the same float loop as the code and passed to the model as a parameter",
     ]
 
 
